@@ -234,13 +234,13 @@ class C09:
             'lexer); preprocessing must finish within 10 s (confirmed 3x). non-trivial = nested expansion, # or ## with an empty or multi-token operand, recursive reference, '
             'variadic form or multi-line invocation; distinct by program text.')
     assumptions = ['gcc -E -P and clang -E -P (gnu11) agree on the token sequence; inputs either reference rejects are discarded (counted)',
-                   'string literals produced by # are compared exactly unless the operand can contain already-expanded material, then modulo white space',
+                   'string literals produced by # are compared exactly, spacing included, whenever gcc and clang agree exactly; when the two references differ only in the spacing inside such a literal the case is compared modulo that spacing',
                    'D56 (-E rejects pp-numbers that are not valid constants) excluded by its diagnostic when ## on forwarded arguments forms such a number (counted)',
                    'recorded findings excluded by construction: D25 (two possibly-empty ## operands / placemarker chains), D27 (`, ## __VA_ARGS__`: operand macro-expanded first, comma dropped for a present-but-empty variable argument): variable arguments are never empty, and carry no macro names once a comma-paste macro exists']
     excl = {'D56': 0, 'D27': 0}
 
     def budget(self, tier):
-        return 2500 if tier == 'quick' else 80000
+        return 2500 if tier == 'quick' else 30000
 
     def one(self, ch, ctx):
         g = Gen(ch, self.excl)
